@@ -370,9 +370,11 @@ class VectorContainer:
         """Return `True` if `period` is one of the labels in `self.span`."""
         span = self.__dict__['span']
 
-        # NumPy arrays test membership element-wise (and broadcast tuples):
-        # compare against `period` as a single object instead
-        if isinstance(span, np.ndarray):
+        # NumPy arrays test membership element-wise and broadcast a tuple:
+        # compare a tuple label against the array as a single object instead
+        # (other labels keep NumPy's own membership test, which also knows how
+        # to compare e.g. `datetime64` and NaN labels)
+        if isinstance(span, np.ndarray) and isinstance(period, tuple):
             target = np.empty((), dtype=object)
             target[()] = period
             return bool(np.any(np.asarray(span, dtype=object) == target))
